@@ -389,12 +389,38 @@ def run_module_positions():
     return out
 
 
+def malformed_errors(errors, text, name="probe.emb"):
+    """'rejected with an error that points into the definition': every message names the module's file (a string),
+    carries a non-synthetic position inside the text, and the error list renders with its source lines.  Returns a
+    description of what is wrong, or None."""
+    from compiler.util import error as error_mod
+    nlines = len(text.splitlines())
+    for group in errors:
+        for m in group:
+            if not isinstance(m.source_file, str):
+                return "an error message names %s as its source file (not a file name): %r" % (type(m.source_file).__name__, m.message[:80])
+            if m.source_file not in (name, ""):
+                return "an error message names the unknown file %r" % m.source_file
+            loc = m.location
+            if m.source_file == name and (loc is None or loc.is_synthetic or not (1 <= loc.start.line <= nlines)):
+                return "an error message carries no position inside the module: %r" % m.message[:80]
+    try:
+        error_mod.format_errors(errors, {name: text})
+    except Exception as e:  # pylint: disable=broad-except
+        return "format_errors raised %s: %s" % (type(e).__name__, str(e)[:80])
+    return None
+
+
 CONST_LEAF = {"integer": "2", "boolean": "true", "enumA": "EnumA.ONE", "enumB": "EnumB.TWO"}
 PLACEMENTS = {
     # how the ill- or well-typed constant expression is reached by the type checker
     "let": "struct Def:\n  0 [+1]  UInt  z\n  let x = %s\n",
     "referenced before its definition": "struct User:\n  0 [+1]  UInt  z\n  let y = Def.x\nstruct Def:\n  0 [+1]  UInt  z\n  let x = %s\n",
     "referenced after its definition": "struct Def:\n  0 [+1]  UInt  z\n  let x = %s\nstruct User:\n  0 [+1]  UInt  z\n  let y = Def.x\n",
+    # local references (a third route: _type_check_local_reference checks the referenced virtual field on demand)
+    "referenced locally before its definition": "struct Def:\n  0 [+1]  UInt  z\n  let y = x\n  let x = %s\n",
+    "referenced locally after its definition": "struct Def:\n  0 [+1]  UInt  z\n  let x = %s\n  let y = x\n",
+    "referenced locally through two aliases": "struct Def:\n  0 [+1]  UInt  z\n  let w = y\n  let y = x\n  let x = %s\n",
 }
 
 
@@ -475,10 +501,140 @@ def run_module_operators():
             msg = errors[0][0].message if errors else ""
             out["candidates"].append(dict(desc, rejected=rejected, what="%s %s is %s when %s%s" % (
                 op, list(ks), "rejected" if rejected else "accepted", placement, (": " + msg) if msg else "")))
+            return
+        bad = malformed_errors(errors, desc["module_text"]) if rejected else None
+        if bad:
+            out["candidates"].append(dict(desc, malformed=True, what="%s %s %s: %s" % (op, list(ks), placement, bad)))
         else:
             out["discharged"] += 1
 
-    pysym.explore(body, on_path, max_paths=5000)
+    pysym.explore(body, on_path, max_paths=8000)
+    return out
+
+
+PARAM_TYPES = {  # declared type of the parameter: kind of a reference to it (None: not allowed as a parameter type)
+    "UInt:8": "integer", "Int:16": "integer", "EnumA": "enumA", "Flag": None, "UInt:8[4]": None, "Tee": None, "EnumA[2]": None,
+}
+PARAM_USES = {  # how the structure uses its parameter: the kind the use demands (None: any)
+    "unused": ("", None),
+    "aliased by a virtual field": ("  let q = p\n", None),
+    "as a field size": ("  1 [+p]  UInt:8[]  arr\n", "integer"),
+    "in an integer expression": ("  let q = p + 1\n", "integer"),
+    "compared with an enum value": ("  if p == EnumA.ONE:\n    1 [+1]  UInt  c\n", "enumA"),
+    "as an array length": ("  1 [+4]  UInt:8[p]  arr\n", "integer"),
+    "passed on": ("  1 [+1]  Tee(p)  t\n", "integer"),
+}
+
+
+def run_parameter_definitions():
+    """Parameter definitions: declared type x use of the parameter inside the structure, through the whole front
+    end.  Accepted iff the declared type is an integer or an enum and the use is well-typed for it; otherwise
+    rejected with well-formed errors, never a crash."""
+    out = {"op": "parameter definitions", "paths": 0, "obligations": 0, "discharged": 0, "candidates": [], "unknown": 0}
+    from compiler.front_end import emboss_front_end
+    real = emboss_front_end._find_in_dirs_and_read([common.REPO])
+    combos = [(t, u) for t in PARAM_TYPES for u in PARAM_USES]
+    holder = {}
+
+    def text_for(t, u):
+        return MODULE_HEADER + "struct Par(p: %s):\n  0 [+1]  UInt  z\n%s" % (t, PARAM_USES[u][0])
+
+    def body(c):
+        k = c.choose(len(combos), "combo")
+        holder["k"] = k
+        text = text_for(*combos[k])
+
+        def rd(name):
+            return (text, None) if name == "probe.emb" else real(name)
+
+        ir, _, errors = glue.parse_emboss_file("probe.emb", rd)
+        return bool(errors), errors
+
+    def on_path(pr):
+        out["paths"] += 1
+        out["obligations"] += 1
+        t, u = combos[holder["k"]]
+        kind, need = PARAM_TYPES[t], PARAM_USES[u][1]
+        want_accept = kind is not None and (need is None or need == kind)
+        desc = {"position": "parameter definition", "declared": t, "use": u, "module_text": text_for(t, u)}
+        if pr.kind == "raise":
+            out["candidates"].append(dict(desc, what="front end crashed with %s: %s (parameter of type %s, %s)" % (
+                type(pr.exc).__name__, str(pr.exc)[:100], t, u)))
+            return
+        rejected, errors = pr.value
+        if rejected == want_accept:
+            msg = errors[0][0].message if errors else ""
+            out["candidates"].append(dict(desc, rejected=rejected, what="a parameter of type %s, %s, is %s%s" % (
+                t, u, "rejected" if rejected else "accepted", (": " + msg) if msg else "")))
+            return
+        bad = malformed_errors(errors, desc["module_text"]) if rejected else None
+        if bad:
+            out["candidates"].append(dict(desc, malformed=True, what="a parameter of type %s, %s: %s" % (t, u, bad)))
+        else:
+            out["discharged"] += 1
+
+    pysym.explore(body, on_path, max_paths=1000)
+    return out
+
+FAILING_SUBEXPRESSIONS = ["(st == 1)", "(st < 1)", "(fl ? st : st)", "(1 + true)", "$max(st)", "(fl ? 1 : true)", "(ea == 1)", "(st == st)"]
+NESTED_CONTEXTS = {
+    # an ill-typed subexpression as an operand of every operator and in every typed position: the enclosing
+    # construct must still be checked without a crash, and the module rejected with well-formed errors
+    "left of +": "  let v = %s + 1\n", "right of -": "  let v = 1 - %s\n", "left of *": "  let v = %s * 2\n",
+    "left of ==": "  let v = %s == 1\n", "right of !=": "  let v = 1 != %s\n", "left of <": "  let v = %s < 1\n",
+    "right of >=": "  let v = 1 >= %s\n", "left of &&": "  let v = %s && true\n", "right of ||": "  let v = true || %s\n",
+    "condition of ?:": "  let v = %s ? 1 : 2\n", "if-true of ?:": "  let v = fl ? %s : 2\n", "if-false of ?:": "  let v = fl ? 2 : %s\n",
+    "argument of $max": "  let v = $max(1, %s)\n", "argument of $upper_bound": "  let v = $upper_bound(%s)\n",
+    "argument of $lower_bound": "  let v = $lower_bound(%s)\n",
+    "existence condition": "  if %s:\n    8 [+1]  UInt  zz\n", "field start": "  %s [+1]  UInt  zz\n",
+    "field size": "  8 [+%s]  UInt:8[]  zz\n", "array length": "  8 [+2]  UInt:8[%s]  zz\n",
+    "passed parameter": "  8 [+1]  Tee(%s)  zz\n", "requires": "  8 [+1]  UInt  zz\n    [requires: %s]\n",
+    "condition of a virtual field": "  if %s:\n    let zz = 1\n",
+}
+NESTED_BODY = "struct Sub:\n  0 [+1]  UInt  q\nstruct Main:\n  0 [+1]  UInt  ui\n  1 [+1]  bits:\n    0 [+1]  Flag  fl\n  2 [+1]  EnumA  ea\n  3 [+1]  Sub  st\n"
+
+
+def run_nested_failures():
+    out = {"op": "nested ill-typed operands", "paths": 0, "obligations": 0, "discharged": 0, "candidates": [], "unknown": 0}
+    from compiler.front_end import emboss_front_end
+    real = emboss_front_end._find_in_dirs_and_read([common.REPO])
+    combos = [(cx, f) for cx in NESTED_CONTEXTS for f in FAILING_SUBEXPRESSIONS]
+    holder = {}
+
+    def text_for(cx, f):
+        return MODULE_HEADER + NESTED_BODY + NESTED_CONTEXTS[cx] % f
+
+    def body(c):
+        k = c.choose(len(combos), "combo")
+        holder["k"] = k
+        text = text_for(*combos[k])
+
+        def rd(name):
+            return (text, None) if name == "probe.emb" else real(name)
+
+        ir, _, errors = glue.parse_emboss_file("probe.emb", rd)
+        return bool(errors), errors
+
+    def on_path(pr):
+        out["paths"] += 1
+        out["obligations"] += 1
+        cx, f = combos[holder["k"]]
+        desc = {"position": "nested: " + cx, "expression": f, "type": "ill-typed", "module_text": text_for(cx, f)}
+        if pr.kind == "raise":
+            out["candidates"].append(dict(desc, what="front end crashed with %s: %s (ill-typed %s as %s)" % (
+                type(pr.exc).__name__, str(pr.exc)[:100], f, cx)))
+            return
+        rejected, errors = pr.value
+        if not rejected:
+            out["candidates"].append(dict(desc, rejected=False, what="accepted although %s is ill-typed (as %s)" % (f, cx)))
+            return
+        bad = malformed_errors(errors, desc["module_text"])
+        if bad:
+            out["candidates"].append(dict(desc, malformed=True, what="ill-typed %s as %s: %s" % (f, cx, bad)))
+        else:
+            out["discharged"] += 1
+
+    pysym.explore(body, on_path, max_paths=2000)
     return out
 
 
@@ -490,6 +646,10 @@ def _job(j):
             return run_module_positions()
         if j == "module operators":
             return run_module_operators()
+        if j == "parameter definitions":
+            return run_parameter_definitions()
+        if j == "nested failures":
+            return run_nested_failures()
         return run_operator(j)
     except Exception as e:  # pylint: disable=broad-except
         return {"error": "".join(traceback.format_exception(type(e), e, e.__traceback__))[-1200:], "op": str(j)}
@@ -567,6 +727,9 @@ def replay(c):
     except Exception as e:  # pylint: disable=broad-except
         return True, "front end crashed with %s: %s on\n%s" % (type(e).__name__, e, text)
     rejected = bool(errors)
+    if c.get("malformed"):
+        bad = malformed_errors(errors, text, "cand.emb") if rejected else None
+        return bool(bad), "%s on\n%s" % (bad or "errors are well-formed on replay", text)
     if "rejected" not in c:
         return False, "front end %s" % ("rejects" if rejected else "accepts")
     return rejected == c["rejected"], "front end %s:\n%s" % ("rejects" if rejected else "accepts", text)
@@ -582,6 +745,10 @@ def classify(c):
         key["position"] = c.get("position")
         if "expression" in c:
             key["type"] = c.get("type")
+        if "declared" in c:
+            key["declared"] = c["declared"]
+    if c.get("malformed"):
+        key = {"what": "malformed errors", "placement": c.get("placement") or c.get("use") or c.get("position")}
     return key
 
 
@@ -589,7 +756,7 @@ def main(tier):
     global MAX_ARITY
     rep = common.Report("C13", tier, "proof")
     MAX_ARITY = 3 if tier == "quick" else 4
-    jobs = list(range(len(OPERATORS))) + ["positions", "module positions", "module operators"]
+    jobs = list(range(len(OPERATORS))) + ["positions", "module positions", "module operators", "parameter definitions", "nested failures"]
     with multiprocessing.Pool(min(len(jobs), common.ncpu())) as pool:
         results = pool.map(_job, jobs)
     tot = {"paths": 0, "obligations": 0, "discharged": 0}
@@ -622,7 +789,7 @@ def main(tier):
             # (another pass catches it): reported as unit-level only if the unit is the only guard
             rep.inconclusive_item("unit-level difference not visible through the whole front end: %s (%s)" % (c, observed[:60]))
     for name, v in per_op.items():
-        if name not in ("positions", "module positions", "module operators") and (not v["accepted"] or not v["rejected"]):
+        if name not in ("positions", "module positions", "module operators", "parameter definitions", "nested ill-typed operands") and (not v["accepted"] or not v["rejected"]):
             rep.harness_error("operator %s: accepted=%s rejected=%s (vacuous)" % (name, v["accepted"], v["rejected"]))
     rep.sample({"operator": "==", "arity": 2, "operand kinds": "each in {integer, boolean, enumA, enumB, opaque}",
                 "oracle": "accepted iff both integer, both boolean, or both the same enum; result boolean"})
@@ -640,9 +807,14 @@ def main(tier):
                               "type_check._type_check_monomorphic_operator", "type_check._type_check_comparison_operator",
                               "type_check._type_check_choice_operator", "type_check._type_check_field_location",
                               "type_check._type_check_array_size", "type_check._type_check_field_existence_condition",
-                              "type_check._type_check_parameter", "type_check._type_check_passed_parameters"],
+                              "type_check._type_check_parameter", "type_check._type_check_passed_parameters",
+                              "type_check._type_check_local_reference", "type_check._annotate_parameter_type (through the whole front end)"],
         "bounds": {"operators": "all 16", "operand types": "integer, boolean, two enums, opaque", "function arity": "0..%d" % MAX_ARITY,
                    "declared/passed parameters": "0..2",
+                   "parameter definitions": "%d declared types x %d uses inside the structure" % (len(PARAM_TYPES), len(PARAM_USES)),
+                   "placements of an operator over constants": list(PLACEMENTS),
+                   "nested ill-typed operands": "%d failing subexpressions x %d enclosing operators/positions" % (len(FAILING_SUBEXPRESSIONS), len(NESTED_CONTEXTS)),
+                   "rejections": "every message names the module's file, carries a position inside it, and error.format_errors renders the list",
                    "outside": "nesting is covered by the inductive argument, not executed; [requires] and enum-value typing (attribute_checker)"},
         "note": "finite domain: the paths enumerate every (operator, arity, type vector); the solver evaluates the table under each path condition",
     })
